@@ -81,6 +81,7 @@ def accepts (dep : Bool) : Cmd → List PK → Bool
   | .longData, l => l.isEmpty
   | .fieldList _, l => acceptFieldList l
   | .changeUser _, l => acceptSimple l
+  | .changeUserRaised, l => acceptSimple l
   | .unknown, l => acceptSimple l
   | .malformed, l => acceptSimple l
 
